@@ -1,10 +1,29 @@
 package plenc
 
-import "unsafe"
+import (
+	"reflect"
+	"unsafe"
+)
 
 type eface struct {
 	rtype unsafe.Pointer
 	data  unsafe.Pointer
+}
+
+// isDirectIface reports whether a value of type typ is stored directly in the
+// data word of an interface rather than behind a pointer. This is the case for
+// pointer-shaped types: pointers, maps, channels, funcs and structs or arrays
+// with a single pointer-shaped element.
+func isDirectIface(typ reflect.Type) bool {
+	switch typ.Kind() {
+	case reflect.Ptr, reflect.Map, reflect.Chan, reflect.Func, reflect.UnsafePointer:
+		return true
+	case reflect.Array:
+		return typ.Len() == 1 && isDirectIface(typ.Elem())
+	case reflect.Struct:
+		return typ.NumField() == 1 && isDirectIface(typ.Field(0).Type)
+	}
+	return false
 }
 
 func unpackEFace(obj interface{}) *eface {
